@@ -21,6 +21,7 @@ from .transforms import (
 from .utils import (
     AspireFile,
     _dtype_to_name,
+    convert_dtype,
     function_id,
     load_from_h5_file,
     recursively_save_to_h5_file,
@@ -177,6 +178,8 @@ class Aspire:
         FlowClass, xp = get_flow_wrapper(
             backend=self.flow_backend, flow_matching=self.flow_matching
         )
+        # The flow lives in its own namespace: hand it that namespace's dtype
+        dtype = convert_dtype(self.dtype, xp)
 
         data_transform = FlowTransform(
             parameters=self.parameters,
@@ -186,7 +189,7 @@ class Aspire:
             device=self.device,
             xp=xp,
             eps=self.eps,
-            dtype=self.dtype,
+            dtype=dtype,
         )
 
         # Check if FlowClass takes `parameters` as an argument
@@ -200,7 +203,7 @@ class Aspire:
             dims=self.dims,
             device=self.device,
             data_transform=data_transform,
-            dtype=self.dtype,
+            dtype=dtype,
             **self.flow_kwargs,
         )
 
